@@ -23,6 +23,12 @@ import (
 // ONE token of kind STRING (CHAR) in place of every @, whose value (strconv.Unquote /
 // strconv.UnquoteChar) is the string (rune) handed to Lit (LitRune).  For LitByte the
 // expression in the slot is located with go/parser and evaluated with go/types: type byte, value b.
+//
+// c12_conc.go: literals rendered by several goroutines at once.  c12_ctx.go (round 6): the
+// streams context (a literal in ~35 other code contexts: Dict key / value, Index, Case,
+// Custom, Tag, in front of a chained Block ...), magic-content (content equal to the strings
+// the renderer compares with, next to and inside every group kind; oracle: the same code with
+// a neutral literal) and size (literals and rendered lines around 2^16, 2^17, 2^20 bytes).
 type c12 struct{}
 
 func init() { Register(c12{}) }
@@ -97,6 +103,37 @@ func c12CheckTokens(shape, src string, lits []c1xLit) string {
 	return c12CheckTemplate(c1xTemplate(shape, len(lits)), src, lits)
 }
 
+// c12MatchSlot decides that the tokens of got from index j on start with the literal l and
+// returns how many tokens it takes: one STRING (CHAR) token for a string (rune); for a byte
+// the conversion byte(<integer literal of value b>) (four tokens; uint8 is the same type); for
+// Kind "id" (an identifier put where a literal could stand, c12_ctx.go) one IDENT of that name.
+func c12MatchSlot(got []c12Token, j int, l c1xLit) (int, string) {
+	if j >= len(got) {
+		return 0, "output ends where a literal is expected"
+	}
+	switch l.Kind {
+	case "lit", "rune":
+		return 1, c12LitValue(got[j], l)
+	case "id":
+		if got[j].tok != token.IDENT || got[j].lit != l.V.(string) {
+			return 1, fmt.Sprintf("token %s %q where the identifier %q is expected", got[j].tok, got[j].lit, l.V.(string))
+		}
+		return 1, ""
+	case "byte":
+		want := l.V.(byte)
+		if j+3 >= len(got) || got[j].tok != token.IDENT || (got[j].lit != "byte" && got[j].lit != "uint8") ||
+			got[j+1].tok != token.LPAREN || got[j+2].tok != token.INT || got[j+3].tok != token.RPAREN {
+			return 1, fmt.Sprintf("tokens from %s %q on where the conversion byte(%#x) is expected", got[j].tok, got[j].lit, want)
+		}
+		v, err := strconv.ParseUint(strings.ReplaceAll(got[j+2].lit, "_", ""), 0, 64)
+		if err != nil || v != uint64(want) {
+			return 4, fmt.Sprintf("byte(%s) where byte(%#x) is expected", got[j+2].lit, want)
+		}
+		return 4, ""
+	}
+	return 1, "harness: token check of a " + l.Kind + " literal"
+}
+
 // c12CheckTemplate: the same for a skeleton given as text (`@` = one literal).
 func c12CheckTemplate(template, src string, lits []c1xLit) string {
 	tmpl, _ := c12Scan(template) // '@' scans as ILLEGAL
@@ -104,25 +141,34 @@ func c12CheckTemplate(template, src string, lits []c1xLit) string {
 	if len(errs) > 0 {
 		return "output does not scan: " + strings.Join(errs, "; ")
 	}
-	k := 0
+	k, j := 0, 0
 	for i, want := range tmpl {
-		if i >= len(got) {
+		if j >= len(got) {
 			return fmt.Sprintf("output ends after %d tokens, skeleton has %d", len(got), len(tmpl))
 		}
-		g := got[i]
 		if want.tok == token.ILLEGAL {
-			if m := c12LitValue(g, lits[k]); m != "" {
+			if k >= len(lits) {
+				return "harness: skeleton has more slots than the case has literals"
+			}
+			n, m := c12MatchSlot(got, j, lits[k])
+			if m != "" {
 				return fmt.Sprintf("literal %d: %s", k, m)
 			}
+			j += n
 			k++
 			continue
 		}
+		g := got[j]
 		if g.tok != want.tok || (want.tok != token.SEMICOLON && g.lit != want.lit) {
 			return fmt.Sprintf("token %d is %s %q, skeleton has %s %q (neighbours of the literal not intact)", i, g.tok, g.lit, want.tok, want.lit)
 		}
+		j++
 	}
-	if len(got) != len(tmpl) {
-		return fmt.Sprintf("%d extra tokens after the skeleton, first %s %q", len(got)-len(tmpl), got[len(tmpl)].tok, got[len(tmpl)].lit)
+	if j != len(got) {
+		return fmt.Sprintf("%d extra tokens after the skeleton, first %s %q", len(got)-j, got[j].tok, got[j].lit)
+	}
+	if k != len(lits) {
+		return "harness: skeleton has fewer slots than the case has literals"
 	}
 	return ""
 }
@@ -183,6 +229,9 @@ func c12CheckBytes(shape, src string, lits []c1xLit) string {
 func (c12) Oracle(c *Case, got []hist.Obs) string {
 	if x, ok := c.Meta["conc"].(*c12Conc); ok {
 		return x.oracle(got) // c12_conc.go: every output of every goroutine
+	}
+	if x, ok := c.Meta["ctx"].(*c12CtxCase); ok {
+		return x.oracle(c, got) // c12_ctx.go: contexts and magic content
 	}
 	lits := c.Meta["lits"].([]c1xLit)
 	shape := c.Meta["shape"].(string)
@@ -505,7 +554,15 @@ func (c12) Generate(r *rand.Rand, t string) []*Case {
 	g.batch(bs, 64, "byte")
 	// ---- several goroutines at once (c12_conc.go); last: the draws of the streams above are unchanged ----
 	g.out = append(g.out, c12ConcGenerate(r, t)...)
-	return g.out
+	// ---- round 6 (c12_ctx.go): code contexts, magic content, sizes; drawn after everything else.  The
+	// size cases are put FIRST in the list: the model needs seconds for the largest ones and its
+	// processes take the lines in order ----
+	ctx := c12ContextCases(r, t)
+	magic := c12MagicCases(r, t)
+	size := c12SizeCases(r, t)
+	out := append(size, g.out...)
+	out = append(out, ctx...)
+	return append(out, magic...)
 }
 
 func (c12) Regressions() []*Case {
@@ -523,7 +580,22 @@ func (c12) Regressions() []*Case {
 		mk("rune-max", c12Rune(0x10ffff)),
 		mk("rune-line-separator", c12Rune(0x2028)),
 		mk("byte-255", c12Byte(255)),
+		c12LitDefaultBeforeBlock(),
 	}
+}
+
+// c12LitDefaultBeforeBlock: fixed defect 8235fd5 (known finding lit-default-before-block):
+// If().Id("mode").Op("==").Lit("default").Block(Return()) rendered `if mode == "default" return`
+// - the case-block rule looked only at the content of the item in front of the Block.
+func c12LitDefaultBeforeBlock() *Case {
+	for i := range c12Contexts {
+		if c12Contexts[i].Name == "if-lit-block" {
+			c := c12ContextCase(&c12Contexts[i], []c1xLit{c12Str("default")}, "plain", true, "regression")
+			c.Name = "lit-default-before-block"
+			return c
+		}
+	}
+	panic("c12: context if-lit-block missing")
 }
 
 // Shrink: every literal of a multi-literal case on its own; a single string with one byte
@@ -531,6 +603,9 @@ func (c12) Regressions() []*Case {
 func (c12) Shrink(c *Case) []*Case {
 	if _, ok := c.Meta["conc"].(*c12Conc); ok {
 		return c12ConcShrink(c)
+	}
+	if x, ok := c.Meta["ctx"].(*c12CtxCase); ok {
+		return x.shrink()
 	}
 	lits := c.Meta["lits"].([]c1xLit)
 	nf, fn := c.Meta["noformat"].(bool), c.Meta["func"].(bool)
@@ -548,6 +623,14 @@ func (c12) Shrink(c *Case) []*Case {
 	shape := c.Meta["shape"].(string)
 	if len(s) > 3 {
 		out = append(out, c12Case(shape, []c1xLit{c12Str(s[:len(s)/2])}, nf, fn, "shrunk"), c12Case(shape, []c1xLit{c12Str(s[len(s)/2:])}, nf, fn, "shrunk"))
+	}
+	if len(s) > 4096 {
+		// a large literal (stream size): halves and quarters only - every candidate costs the model
+		// a noticeable time
+		q := len(s) / 4
+		out = append(out, c12Case(shape, []c1xLit{c12Str(s[:3*q])}, nf, fn, "shrunk"), c12Case(shape, []c1xLit{c12Str(s[q:])}, nf, fn, "shrunk"),
+			c12Case(shape, []c1xLit{c12Str(s[:len(s)-len(s)/16-1])}, nf, fn, "shrunk"))
+		return out
 	}
 	for i := 0; i < len(s) && i < 200; i++ {
 		out = append(out, c12Case(shape, []c1xLit{c12Str(s[:i] + s[i+1:])}, nf, fn, "shrunk"))
